@@ -160,6 +160,7 @@ def main():
                          "theorem_or_check": "corr/RunBaseN.v (BaseArt_epochs.fit_iters) vs BaseART.fit(max_iter > 1)"}}, no_input=True)
     v.cov["several_epoch_fits_against_model"] = len(estrs)
     v.cov["traces_validated_against_impl"] = v.cov.get("traces_validated_against_impl", 0) + sum(1 for x in ecodes if x == 0)
+    v.cov["added_after_wave_7"] = 're-fit histories (fit, fit on a permuted part, fit on everything) for every compound estimator; DualVigilanceART map book-keeping (one entry per base category, values 0 .. n_clusters-1); DualVigilanceART lower bounds up to just below the upper vigilance'
     sys.exit(v.finish())
 
 
